@@ -80,6 +80,37 @@ def check(ctx: Ctx) -> str:
     vc = repo.func("compiler:CodeGenerator.visit_Const")
     s = ast.unparse(vc.node)
     ctx.check("self.write(repr(val))" in s, "visit_Const:repr", "compiler:CodeGenerator.visit_Const", "constants re-emitted with repr", "constants must be written into the module with repr()", vc.loc())
+    # every spelling visit_Const writes is an exact one: the value reaches the text only through
+    # str() / repr() (round-trip exact for float and int) - never through a format spec, rounding
+    # or arithmetic (`f"{val:.1f}"` turns 1e-06 into 0.0)
+    vname = "val"
+    src_ = [a for a in ast.walk(vc.node) if isinstance(a, ast.Assign) and isinstance(a.value, ast.Call) and astq.callee(a.value).endswith(".as_const") and isinstance(a.targets[0], ast.Name)]
+    if len(src_) == 1:
+        vname = src_[0].targets[0].id  # type: ignore[attr-defined]
+
+    def _exact(e: ast.AST, depth: int = 0) -> bool:
+        if isinstance(e, ast.Constant):
+            return True
+        if isinstance(e, ast.Name):
+            if e.id == vname:
+                return True
+            vals = [a.value for a in ast.walk(vc.node) if isinstance(a, ast.Assign) and any(isinstance(t_, ast.Name) and t_.id == e.id for t_ in a.targets)]
+            return bool(vals) and depth < 4 and all(_exact(v_, depth + 1) for v_ in vals)
+        if isinstance(e, ast.Call) and astq.callee(e) in ("str", "repr") and len(e.args) == 1 and not e.keywords:
+            return _exact(e.args[0], depth)
+        if isinstance(e, ast.JoinedStr):
+            return all(isinstance(v_, ast.Constant) or (isinstance(v_, ast.FormattedValue) and v_.format_spec is None and _exact(v_.value, depth)) for v_ in e.values)
+        if isinstance(e, ast.BinOp) and isinstance(e.op, ast.Add):
+            return _exact(e.left, depth) and _exact(e.right, depth)
+        if isinstance(e, ast.IfExp):
+            return _exact(e.body, depth) and _exact(e.orelse, depth)
+        return False
+
+    writes = [c for c in astq.calls(vc.node) if astq.callee(c) == "self.write" and c.args]
+    ctx.floor("writes in visit_Const", len(writes), 3)
+    for c in writes:
+        ctx.check(_exact(c.args[0]), f"visit_Const:exact:{ast.unparse(c.args[0])[:30]}", "compiler:CodeGenerator.visit_Const", f"`{ast.unparse(c.args[0])[:50]}` is not an exact spelling of the constant",
+                  f"visit_Const writes `{ast.unparse(c.args[0])}`: a constant must reach the generated module through str() / repr() only; a format spec, rounding or arithmetic changes the value the template literal denotes (`{{% set x = 1e-6 %}}` becomes 0.0)", vc.loc(c))
     sre = lm.module_regex("string_re")
     ctx.check(sre.flags & re.S and sre.pattern.count("\\\\.") == 2, "string_re", "lexer:<module>", "string_re shape", "string_re must accept any escaped character (\\\\.) inside both quote styles and span lines (re.S)", "src/jinja2/lexer.py")
     return __doc__ or ""
